@@ -85,6 +85,9 @@ type sOp struct {
 	Node   string   `json:"node"`
 	Parent string   `json:"parent,omitempty"`
 	Points []sPoint `json:"points"`
+	// after the reply, before the dump: a store maintenance run (admin.storeMaint: verification with repair).  On a
+	// store whose hashes are right it changes nothing, so the model does not hear of it
+	MaintAfter bool `json:"maint_after,omitempty"`
 }
 
 type sView struct {
@@ -295,6 +298,14 @@ func storeRunScript(s *sScript) error {
 			step.Pubs = append(step.Pubs, pub)
 		}
 		sort.SliceStable(step.Pubs, func(i, j int) bool { return step.Pubs[i].Subject < step.Pubs[j].Subject })
+		if op.MaintAfter {
+			if m, err := nc.Request("admin.storeMaint", nil, 20*time.Second); err != nil || len(m.Data) > 0 {
+				step.Reply = 2
+				step.Err = "admin.storeMaint not answered or refused"
+				s.Steps = append(s.Steps, step)
+				break
+			}
+		}
 		step.Dump, step.Root, err = storeDump(nc, ids)
 		if err != nil {
 			step.Reply = 2
